@@ -19,7 +19,7 @@ use crate::classic::clvm_tools::stages::stage_0::{RunProgramOption, TRunProgram}
 
 use crate::compiler::prims;
 use crate::compiler::runtypes::RunFailure;
-use crate::compiler::sexp::{parse_sexp, printable, SExp};
+use crate::compiler::sexp::{enlist, parse_sexp, printable, SExp};
 use crate::compiler::srcloc::Srcloc;
 
 use crate::util::{number_from_u8, u8_from_number, Number};
@@ -580,6 +580,49 @@ pub fn run_step(
                     ));
                 }
                 SExp::Cons(l, a, b) => {
+                    if let SExp::Cons(_, op, _) = a.borrow() {
+                        // ((op) . operands): the consensus evaluator hands the
+                        // operands to op as they are, without evaluating them.
+                        if matches!(op.borrow(), SExp::Cons(_, _, _)) {
+                            return Err(RunFailure::RunErr(
+                                l.clone(),
+                                format!("in ((X)...) syntax X must be lone atom {sexp}"),
+                            ));
+                        }
+                        let head = Rc::new(
+                            translate_head(
+                                allocator,
+                                runner.clone(),
+                                prim_map.clone(),
+                                l.clone(),
+                                op.clone(),
+                                context.clone(),
+                            )?
+                            .with_loc(l.clone()),
+                        );
+                        if atom_value(head.clone())? == bi_one() {
+                            return Err(RunFailure::RunErr(
+                                l.clone(),
+                                format!("unimplemented operator {head}"),
+                            ));
+                        }
+                        // An operator reads its operands up to the first atom,
+                        // whatever that atom is.
+                        let mut operands = Vec::new();
+                        let mut operand_tail = b.clone();
+                        while let SExp::Cons(_, f, r) = operand_tail.clone().borrow() {
+                            operands.push(f.clone());
+                            operand_tail = r.clone();
+                        }
+                        return Ok(RunStep::Op(
+                            head,
+                            context.clone(),
+                            Rc::new(enlist(l.clone(), &operands)),
+                            None,
+                            parent.clone(),
+                        ));
+                    }
+
                     let head = Rc::new(
                         translate_head(
                             allocator,
